@@ -39,6 +39,10 @@ Collapse.collapse_filter
 Collapse.collapse_ws_filter
 Collapse.collapse_del_filter
 Collapse.collapse_del_sublist
+Collapse.collapse_del_fixed
+Collapse.collapse_del_fixed_iff
+Collapse.collapse_ws_fixed
+Collapse.collapse_ws_fixed_iff
 Collapse.fold_nil
 Collapse.fold_snoc
 Collapse.fold_append
